@@ -74,7 +74,7 @@ def roundtrips(Outer, Inner, o, nested, codecs):
         except Exception as ex:      # noqa
             from vf.engine.symx_guard import guard
             guard(ex)
-            return '%s:raises:%s' % (dec, type(ex).__name__), lambda: '%s/%s raised %r' % (enc, dec, ex)
+            return '%s:raises:%s' % (dec, type(ex).__name__), lambda enc=enc, dec=dec, ex=ex: '%s/%s raised %r' % (enc, dec, ex)
         if type(back) is not Outer:
             return '%s:wrong-class' % dec, lambda: '%s returned a %s' % (dec, type(back).__name__)
         if nested and not isinstance(back.i, Inner):
